@@ -66,6 +66,13 @@ func SwarmOpts(r *Rand) GenOpts {
 	o.Ranges = r.PickF(0, 0.3, 1)
 	o.Subset = r.PickF(0, 0.5, 1)
 	o.WeirdIds = r.Bool(0.2)
+	if r.Bool(0.08) {
+		// occasionally beyond the usual small bounds: library sort routines, slice growth and
+		// hash maps behave differently above a dozen elements
+		o.MaxAlts = r.Range(8, 14)
+		o.MaxCrit = r.Range(7, 13)
+		o.MaxBiases = r.Range(3, 6)
+	}
 	return o
 }
 
@@ -151,7 +158,7 @@ func (g *Gen) Valid() *Req {
 		nc = 5 // 31 capacities; with two added criteria 127
 	}
 	// ids
-	if g.O.WeirdIds {
+	if g.O.WeirdIds && na <= len(weirdAlt) && nc <= len(weirdCrit) {
 		p := r.Perm(len(weirdAlt))
 		for i := 0; i < na; i++ {
 			q.Alts = append(q.Alts, weirdAlt[p[i]])
